@@ -156,10 +156,19 @@ def external_portfolio(solver, inputs, timeout_s, logic=None):
                     continue
                 pending.remove(item)
                 out = p.stdout.read()
-                if "(error" in out:
-                    answers[name] = "error"
-                    continue
                 first = out.strip().splitlines()[0].strip() if out.strip() else ""
+                # an '(error' before the verdict (or with a sat verdict) makes the answer unusable; the
+                # 'cannot get-value after unsat' complaint that follows an unsat verdict is benign
+                errs = [l for l in out.splitlines() if "(error" in l]
+                if first not in ("sat", "unsat") and errs:
+                    answers[name] = "error: " + errs[0][:120]
+                    continue
+                if first == "sat" and errs:
+                    answers[name] = "sat+error: " + errs[0][:120]
+                    continue
+                if first == "unsat" and any("get value" not in e.lower() and "model is not available" not in e for e in errs):
+                    answers[name] = "unsat+error: " + errs[0][:120]
+                    continue
                 if first in ("sat", "unsat"):
                     answers[name] = first
                     if verdict == "unknown":
